@@ -851,6 +851,93 @@ func c06GenCase(r *vfRand, adv bool) c06In {
 	return in
 }
 
+// c06Enum: exhaustive single mutations of one accepted request per method (every
+// position of the token / tag / path / query value / signed header value /
+// password), step > 1 samples the positions (quick tier).
+func c06Enum(step int) []c06In {
+	var out []c06In
+	other := func(c byte) byte {
+		if c == 'q' {
+			return 'Z'
+		}
+		return 'q'
+	}
+	sub := func(s string, i int) string { return s[:i] + string(other(s[i])) + s[i+1:] }
+	k := 0
+	take := func() bool { k++; return k%step == 0 }
+	// JWT: every byte of the token
+	for _, alg := range []string{"HS256", "HS384", "HS512"} {
+		cfg := c06Cfg{JWT: &c06JWTCfg{Alg: alg, Secret: "6d79736563726574"}}
+		tok := c06Issue(alg, cfg.JWT.Secret, fmt.Sprintf(`{"alg":"%s","typ":"JWT"}`, alg), `{"sub":"alice","exp":1700003600}`)
+		for i := 0; i <= len(tok); i++ {
+			if !take() {
+				continue
+			}
+			t, kind := tok, 30
+			if i < len(tok) {
+				t, kind = sub(tok, i), 29
+			}
+			out = append(out, c06In{Cfg: cfg, JNow: 1700000000, Kind: kind, Note: fmt.Sprintf("token byte %d", i),
+				Req: c06Req{Method: "GET", Path: "/", Host: "example.com", Headers: [][2]string{{"Authorization", "Bearer " + t}}}})
+		}
+	}
+	// Basic: every byte of user and password
+	users := [][2]string{{"alice", "wonder:land"}, {"bob", "pässwörd"}}
+	for _, u := range users {
+		creds := u[0] + ":" + u[1]
+		for i := 0; i <= len(creds); i++ {
+			if !take() {
+				continue
+			}
+			c, kind := creds, 50
+			if i < len(creds) {
+				c, kind = sub(creds, i), 53
+			}
+			out = append(out, c06In{Cfg: c06Cfg{Basic: users}, JNow: 1700000000, Kind: kind, Note: fmt.Sprintf("credential byte %d", i),
+				Req: c06Req{Method: "GET", Path: "/", Host: "example.com",
+					Headers: [][2]string{{"Authorization", "Basic " + base64.StdEncoding.EncodeToString([]byte(c))}}}})
+		}
+	}
+	// signature: every position of tag, path, a query value, a signed header value, the method; both modes
+	for _, mode := range []string{"header", "query"} {
+		cfg := c06Cfg{Sig: &c06SigCfg{Keys: [][2]string{{"AKID", "SECRET"}}, TTL: "10m"}}
+		req := c06Req{Method: "POST", Path: "/api/v1/items%20x", Host: "example.com", Query: [][2]string{{"a", "1"}, {"b", "x%20y"}, {"b", "w"}},
+			Headers: [][2]string{{"X-Custom", "value 1"}, {"X-Free", "unsigned"}}}
+		pl := c06SigPlan{Mode: mode, KeyID: "AKID", Secret: "SECRET", Scopes: []string{"svc"}, AgeS: 2, Expires: 300,
+			Signed: []string{"host", "x-custom"}, BodyAs: "actual"}
+		if mode == "header" {
+			pl.Signed = append(pl.Signed, "x-me-date")
+		}
+		add := func(kind int, note string, m ...c06Mut) {
+			if take() {
+				p := pl
+				out = append(out, c06In{Cfg: cfg, Req: c06CloneReq(req), Plan: &p, Muts: m, JNow: 1700000000, Kind: kind, Note: note})
+			}
+		}
+		add(1, "as signed")
+		for i := 0; i < 64; i++ {
+			add(10, fmt.Sprintf("tag digit %d", i), c06Mut{Op: "tagflip", N: i})
+		}
+		for i := 1; i < len(req.Path); i++ {
+			if req.Path[i] != '%' && req.Path[i-1] != '%' && (i < 2 || req.Path[i-2] != '%') {
+				add(3, fmt.Sprintf("path byte %d", i), c06Mut{Op: "path", A: sub(req.Path, i)})
+			}
+		}
+		for i := 0; i < len("value 1"); i++ {
+			add(7, fmt.Sprintf("signed header byte %d", i), c06Mut{Op: "hset", A: "X-Custom", B: sub("value 1", i)})
+		}
+		for qi, v := range []string{"1", "w"} {
+			add(5, "query value", c06Mut{Op: "qset", N: qi * 2, B: sub(v, 0)})
+		}
+		for _, m := range []string{"GET", "PUT", "POSt", "POS", "POSTT"} {
+			add(2, "method", c06Mut{Op: "method", A: m})
+		}
+		add(12, "unsigned header", c06Mut{Op: "hset", A: "X-Free", B: "other"})
+		add(6, "query order", c06Mut{Op: "qrev"})
+	}
+	return out
+}
+
 func TestVerifC06(t *testing.T) {
 	out := vfOpen(t)
 	defer out.Close()
@@ -874,6 +961,16 @@ func TestVerifC06(t *testing.T) {
 	src := "gen"
 	if adv {
 		src = "adv"
+	}
+	step := 9
+	if vfTier() == "thorough" {
+		step = 1
+	}
+	for i, in := range c06Enum(step) {
+		seq++
+		c := c06RunCase(in, fmt.Sprintf("enum-v-%d", i), seq)
+		c.Src = src
+		out.Emit(c)
 	}
 	n := vfN(400)
 	for i := 0; i < n; i++ {
